@@ -113,7 +113,10 @@ DEFAULTS = dict(volume_ratio_tolerance=None, geo_ratio_tolerance=None, treatment
 # values are written as python expressions so that cases stay JSON-able and replays are exact
 BASE = ['None', '0', '1', '2', '3', '-1', '0.0', '1.0', '0.5', '0.8', '0.9', '0.995', '2.5', 'inf', '-inf', 'nan',
         '10**400', '10**18', "'1'", '[1, 2]', '(1,)', 'True', 'False', 'np.int64(3)', 'np.float64(0.95)', '2.0', '3.0',
-        '1e-300', '5e-324', '-0.0', '90', '4.000000000000001']
+        '1e-300', '5e-324', '-0.0', '90', '4.000000000000001',
+        # falsy / empty containers and other wrong types (a test written as `if not value` would wave them through)
+        "''", '[]', '()', '{}', '1j', "'abc'", "b'1'", 'set()', '(None, None)', '(1, None)', '((1,), (2,))', 'range(1, 3)',
+        '[0.1, 0.4]', 'np.array([1, 2])', 'np.nan', '(np.int64(1), np.int64(2))', '1e308 * 10']
 for _b in (0.0, 0.8, 0.9, 1.0, 2.0, 3.0):
     BASE += ['nxt(%r)' % _b, 'prv(%r)' % _b]
 _PA = ['0', '1', '2', '0.0', '0.1', '0.5', '1.0', 'prv(1.0)', 'nxt(0.0)', 'nan', 'inf', '-1', '1.5', '2.0', 'True', "'a'", 'None']
